@@ -20,7 +20,7 @@ ASSUMPTIONS = ["'never iterates forever' is decided in its bounded form: a solve
                "stopping-ness and absorbing finals are decided by the oracle's MEC test, never assumed from the generator"]
 TIMEOUT = 1800
 TABLE = [("G-DEAD", 900), ("G-CYC", 600), ("G-SLOW", 150), ("G-ACY", 500), ("G-LEX", 200), ("G-TIE", 150), ("G-TINY", 200),
-         ("G-CUT", 300), ("G-TINYB", 300), ("G-INIT0F", 200), ("G-NOREACH", 200), ("G-ACYNF", 200), ("G-CYCNF", 150), ("G-INIT0NF", 100), ("G-AUXFAST", 40), ("G-MIX", 500), ("G-SMALLX", 400), ("G-VSLOW", 2), ("G-HALF", 60), ("G-LATE", 60), ("G-EMPTY", 150)]
+         ("G-CUT", 300), ("G-TINYB", 300), ("G-INIT0F", 200), ("G-NOREACH", 200), ("G-ACYNF", 200), ("G-CYCNF", 150), ("G-INIT0NF", 100), ("G-AUXFAST", 40), ("G-MIX", 500), ("G-SMALLX", 400), ("G-VSLOW", 2), ("G-HALF", 60), ("G-LATE", 60), ("G-EMPTY", 150), ("G-GAP", 200), ("G-GAPLOOP", 400), ("G-CORR", 100), ("G-BIGR", 60)]
 
 
 def gen_cut(rng):
@@ -123,10 +123,24 @@ def decide(gd, idx, cls):
         elif out.status == "budget":
             d = out.diag or {}
             try:
-                rmax = float(an.rmax_solve(prune))
+                # bound over the game the solver may legitimately have built (near-tied actions included); None = no finite bound
+                rmax = an.rmax_tolerant(prune)
+                rmax = float(rmax) if rmax is not None else None
             except OracleInconclusive:
                 rmax = None
-            if d.get("phase") == "other":
+            near = None
+            rec = out.prune_rec
+            if prune and solvable and rec and rec.get("strategies") is not None:
+                # what the solver itself reported at its pruning step (hooked): reachability strategies and probabilities
+                try:
+                    near = analysis.near_tie_cycle(an, gd, (None, rec["strategies"], None, rec["reach"]))
+                except OracleInconclusive:
+                    near = None
+            if near is not None:
+                known.append({"mode": mode, "finding": "near-tie-closes-cycle", "problem": "solver does not terminate: a strictly worse action whose reported value "
+                              "rounds to the best one's 6-digit cell is kept as reachability-optimal, and pruning then leaves a probability-1 cycle",
+                              "value": str(v[0]), "diag": d, **near})
+            elif d.get("phase") == "other":
                 # the graph steps (backward search, restriction, pruning, blanking) are finite algorithms needing at most ~n^2 steps;
                 # exhausting a budget of >= 2e4 sweeps' worth of jumps there is a loop that does not end
                 problems.append({"mode": mode, "problem": "solver does not terminate: loop in %s exceeded the step budget (%d backward jumps)"
@@ -145,8 +159,8 @@ def decide(gd, idx, cls):
     if problems:
         res.update(verdict="violated", what="%s (%s)" % (problems[0]["problem"], problems[0]["mode"]), witness=problems[:4],
                    case={"game": games.enc_game(gd)})
-    elif known and res["verdict"] == "held":
-        res.update(verdict="known", finding="sub-tolerance-positive-value", what="%s: v*(0)=%s" % (known[0]["problem"], known[0]["value"]),
+    elif known and res["verdict"] in ("held", "inconclusive"):         # an established finding outranks a budget overrun of the other mode
+        res.update(verdict="known", finding=known[0].get("finding", "sub-tolerance-positive-value"), what="%s: v*(0)=%s" % (known[0]["problem"], known[0]["value"]),
                    witness=known[:2], case={"game": games.enc_game(gd)})
     if idx % 101 == 0 and n <= 9:
         res["sample"] = {"class": cls, "game": games.to_solver(gd), "exact_value_of_state_0": str(v[0]), "solvable": solvable}
